@@ -195,7 +195,7 @@ pub fn run_check(ctx: &Ctx) -> i32 {
             v
         })
         .collect();
-    sweep(ctx, &format!("7 charset-declaring prefixes x F<={} x 6 configs (strict on and off) with adjust_charset_on_meta_tag x L0,L1,LB", if ctx.quick() { 2 } else { 3 }), Space::MetaFrags { k, max: if ctx.quick() { 2 } else { 3 } }, &meta_cfgs, l1);
+    sweep(ctx, &format!("8 charset-declaring prefixes x F<={} x 6 configs (strict on and off) with adjust_charset_on_meta_tag x L0,L1,LB", if ctx.quick() { 2 } else { 3 }), Space::MetaFrags { k, max: if ctx.quick() { 2 } else { 3 } }, &meta_cfgs, l1);
     {
         let mut sc = prep(&menu, &["none", "doc-text", "el(a[b])", "everything"], &[false], "UTF-8");
         sc.extend(prep(&menu, &["everything"], &[false], "windows-1252"));
